@@ -4,6 +4,7 @@ import json
 
 from vlib import gen_dsl
 from vlib import gen_values as gv
+from vlib import refmodel
 from vlib.checks.c13 import walk
 from vlib.runner import canon
 
@@ -29,7 +30,7 @@ MUTATIONS = [
     "base_changed", "kw_changed", "kw_added", "kw_removed", "literal_lookalike", "prop_required", "prop_source", "prop_key",
     "class_swapped", "sub_replaced", "elements_reordered", "prop_removed",
 ]
-REQUIRED_COUNTERS = ["pairs.rebuild", "pairs.rebuild_one_used", "pairs.root_is_subclass", "pairs.mutant", "equal.true", "equal.false", "equal_pairs.values_compared",
+REQUIRED_COUNTERS = ["parsed_copies.equal", "parsed.trivial_composition_with_default", "pairs.rebuild", "pairs.rebuild_one_used", "pairs.root_is_subclass", "pairs.mutant", "equal.true", "equal.false", "equal_pairs.values_compared",
                      "equal_pairs.json_compared", "reflexive", "symmetric"] + [f"mut.{m}" for m in MUTATIONS]
 
 ANCHORS = [
@@ -338,11 +339,64 @@ def judge_pair(ctx, sut, left, right, spec_l, spec_r, kind, aimed, values_n):
                     f"{json.dumps(json_r, default=repr)[:250]}", finding=finding)
 
 
+POISON = [
+    {"allOf": [{"title": "Anything"}], "default": 5}, {"oneOf": [{}], "default": "d"}, {"anyOf": [True], "default": [1]},
+    {"allOf": [{}, True], "default": {"a": 1}}, {"not": False, "default": 0}, {"type": ["string"], "default": "s"},
+    {"properties": {"p": {"allOf": [{}], "default": 1}, "q": {"allOf": [{}]}}},
+]
+
+
+def parsed_copies(ctx, sut, kept):
+    """Parsed schemas too: a copy parsed at the START of the process and a copy parsed at the END, after the
+    parser has seen many other documents (among them defaults next to compositions of trivial schemas), are
+    independently built copies of one schema."""
+    for schema, early in kept:
+        ctx.evaluation()
+        ctx.count("pairs.parsed_early_vs_late")
+        try:
+            late = sut.parse_direct(copy.deepcopy(schema))
+        except Exception as exc:  # pylint: disable=broad-except
+            ctx.witness("copies_unequal", {"schema": schema, "kind": "parsed_early_vs_late"},
+                        f"the schema parsed at the start no longer parses: {type(exc).__name__}: {exc!r}"[:300])
+            continue
+        problems = []
+        if not (early == late and late == early):
+            problems.append(f"early copy {early!r:.150} != late copy {late!r:.150}")
+        else:
+            try:
+                if not refmodel.json_eq(normalise_json(sut.serialize_json(early)), normalise_json(sut.serialize_json(late))):
+                    problems.append("equal copies serialize to different JSON")
+            except Exception:  # pylint: disable=broad-except
+                pass
+        if problems:
+            ctx.witness("copies_unequal", {"schema": schema, "kind": "parsed_early_vs_late"}, "; ".join(problems))
+        else:
+            ctx.count("parsed_copies.equal")
+
+
 def run_shard(ctx):
     from vlib import sut  # pylint: disable=import-outside-toplevel
+    from vlib import gen_schemas as gs  # pylint: disable=import-outside-toplevel
 
     rng = ctx.rng
+    kept = []
+    for _ in range(12):
+        schema, _tag = gs.any_schema(rng, gs.Opts(max_depth=2))
+        if isinstance(schema, dict):
+            if rng.random() < 0.5:
+                schema = {"anyOf": [schema, {"type": "null"}], "oneOf": [{}, False], "title": "Kept"}
+            try:
+                if refmodel.metaschema_valid(schema):
+                    kept.append((copy.deepcopy(schema), sut.parse_direct(copy.deepcopy(schema))))
+            except Exception:  # pylint: disable=broad-except
+                pass
     for idx in range(ctx.params["specs"]):
+        if idx % 25 == 3:
+            try:
+                sut.parse_direct(copy.deepcopy(POISON[(idx // 25) % len(POISON)]))
+                ctx.count("parsed.trivial_composition_with_default")
+            except Exception:  # pylint: disable=broad-except
+                pass
         gen = gen_dsl.Gen(rng, max_depth=rng.choice([0, 1, 2, 2]), share=0.05, defaults=0.35,
                           inheritance=0.15)
         spec = gen.klass(2) if idx % 3 == 0 else gen.spec()
@@ -397,11 +451,22 @@ def run_shard(ctx):
             ctx.nontrivial(canon([spec, mutant]))
             judge_pair(ctx, sut, left, right, spec, mutant, kind, aimed, ctx.params["values"])
         ctx.sample({"spec": spec}, every=80)
+    parsed_copies(ctx, sut, kept)
 
 
 def replay(case, ctx):
     from vlib import sut  # pylint: disable=import-outside-toplevel
 
+    if case.get("kind") == "parsed_early_vs_late":
+        # a process-history witness: parse the schema, then the poison documents, then the schema again
+        early = sut.parse_direct(copy.deepcopy(case["schema"]))
+        for poison in POISON:
+            try:
+                sut.parse_direct(copy.deepcopy(poison))
+            except Exception:  # pylint: disable=broad-except
+                pass
+        parsed_copies(ctx, sut, [(case["schema"], early)])
+        return
     left = gen_dsl.build(case["spec"])
     right = gen_dsl.build(case["mutant"])
     aimed = [case["value"]] if "value" in case else []
